@@ -158,7 +158,117 @@ func matchBracket(s string, i int) int {
 	return -1
 }
 
+type macro struct {
+	params []string
+	body   string
+}
+
+var macros = map[string]map[string]*macro{} // package -> name -> macro
+
+// expandMacros replaces NAME(args) by the macro body with parameters substituted (textual,
+// arguments are parenthesised).
+func expandMacros(pkg, text string) string {
+	ms := macros[pkg]
+	for iter := 0; iter < 20; iter++ {
+		changed := false
+		for name, m := range ms {
+			for {
+				i := indexWord(text, name+"(")
+				if i < 0 {
+					break
+				}
+				open := i + len(name)
+				close := matchBracket(text, open)
+				if close < 0 {
+					break
+				}
+				args := splitTop(text[open+1 : close])
+				body := m.body
+				if len(args) == len(m.params) {
+					body = substParams(body, m.params, args)
+				}
+				text = text[:i] + "(" + body + ")" + text[close+1:]
+				changed = true
+			}
+		}
+		if !changed {
+			break
+		}
+	}
+	return text
+}
+
+func isIdentByte(c byte) bool {
+	return c == '_' || c >= '0' && c <= '9' || c >= 'a' && c <= 'z' || c >= 'A' && c <= 'Z'
+}
+
+func indexWord(s, w string) int {
+	from := 0
+	for {
+		i := strings.Index(s[from:], w)
+		if i < 0 {
+			return -1
+		}
+		i += from
+		if i == 0 || (!isIdentByte(s[i-1]) && s[i-1] != '.') {
+			return i
+		}
+		from = i + 1
+	}
+}
+
+func splitTop(s string) []string {
+	var out []string
+	depth, start := 0, 0
+	for i := 0; i < len(s); i++ {
+		switch s[i] {
+		case '(', '{', '[':
+			depth++
+		case ')', '}', ']':
+			depth--
+		case ',':
+			if depth == 0 {
+				out = append(out, strings.TrimSpace(s[start:i]))
+				start = i + 1
+			}
+		}
+	}
+	if strings.TrimSpace(s[start:]) != "" {
+		out = append(out, strings.TrimSpace(s[start:]))
+	}
+	return out
+}
+
+func substParams(body string, params, args []string) string {
+	var b strings.Builder
+	i := 0
+	for i < len(body) {
+		if isIdentByte(body[i]) && (i == 0 || (!isIdentByte(body[i-1]) && body[i-1] != '.')) {
+			j := i
+			for j < len(body) && isIdentByte(body[j]) {
+				j++
+			}
+			w := body[i:j]
+			rep := w
+			for k, p := range params {
+				if p == w {
+					rep = "(" + args[k] + ")"
+				}
+			}
+			b.WriteString(rep)
+			i = j
+			continue
+		}
+		b.WriteByte(body[i])
+		i++
+	}
+	return b.String()
+}
+
+var curContractPkg string
+
 func (e *Engine) parseClause(text, where string) *Clause {
+	text = expandMacros(curContractPkg, text)
 	src := rewriteImplies(text)
 	ex, err := parser.ParseExprFrom(token.NewFileSet(), "", src, 0)
 	if err != nil {
@@ -190,10 +300,26 @@ func (e *Engine) parseContractFile(p *packages.Package, f *ast.File, fname strin
 		}
 		first := strings.Fields(t)[0]
 		first = strings.TrimSuffix(first, ":")
-		if first == "func" || first == "lemma" || first == "type" || clauseKeywords[first] {
+		if first == "func" || first == "lemma" || first == "type" || first == "define" || clauseKeywords[first] {
 			joined = append(joined, line{t, l.pos})
 		} else if len(joined) > 0 {
 			joined[len(joined)-1].text += " " + t
+		}
+	}
+	curContractPkg = p.PkgPath
+	if macros[p.PkgPath] == nil {
+		macros[p.PkgPath] = map[string]*macro{}
+	}
+	// macros first, so that they can be used before their definition
+	for _, l := range joined {
+		if kw, rest, _ := strings.Cut(l.text, " "); kw == "define" {
+			head, body, ok := strings.Cut(rest, ":=")
+			if !ok {
+				fatal("contract %s: define needs NAME(params) := expr", e.pos(l.pos))
+			}
+			name, ps, _ := strings.Cut(strings.TrimSpace(head), "(")
+			ps = strings.TrimSuffix(strings.TrimSpace(ps), ")")
+			macros[p.PkgPath][strings.TrimSpace(name)] = &macro{params: splitTop(ps), body: strings.TrimSpace(body)}
 		}
 	}
 	var cur *Contract
@@ -206,6 +332,8 @@ func (e *Engine) parseContractFile(p *packages.Package, f *ast.File, fname strin
 		kw = strings.TrimSuffix(kw, ":")
 		rest = strings.TrimSpace(rest)
 		switch kw {
+		case "define":
+			continue
 		case "func":
 			key := p.Name + "." + rest
 			if strings.HasPrefix(rest, "ext:") {
